@@ -14,7 +14,7 @@ pub fn def() -> CheckDef {
         bounds_quick: "lax diagrams with <=3 nodes, one hyperedge of arity <=2->1, <=2 pending pairs (self pairs, repeats, chains), interfaces <=1, and <=4 nodes with <=3 pairs without hyperedges; every wiring enumerated, all labels symbolic; second quotient call (idempotence) on every result",
         bounds_thorough: "<=4 nodes, <=3 pairs, one hyperedge 2->1, interfaces <=2",
         jobs,
-        budget_s: (120, 1500),
+        budget_s: (100, 1500),
     }
 }
 
